@@ -11,7 +11,7 @@ mkdir -p "$ROOT/root/evidence" "$ROOT/root/replays"; rm -f "$ROOT/root/replays"/
 if [ ! -d "$ROOT/wt" ]; then git -C /repo worktree add -q --detach "$ROOT/wt" HEAD || exit 2; fi
 git -C "$ROOT/wt" reset -q --hard >/dev/null 2>&1; git -C "$ROOT/wt" checkout -q --detach "$(git -C /repo rev-parse HEAD)" && git -C "$ROOT/wt" reset -q --hard && git -C "$ROOT/wt" clean -fdq -e target
 if [ "$PATCH" != "/dev/null" ]; then git -C "$ROOT/wt" apply "$PATCH" 2>/dev/null || (git -C "$ROOT/wt" apply --3way "$PATCH" && git -C "$ROOT/wt" reset -q) || { echo "HARNESS-ERROR: patch does not apply"; exit 2; }; fi
-rsync -a --delete --exclude target --exclude '.build-log.*' /verif/sim/ "$ROOT/sim/"
+rsync -a --delete --exclude target --exclude '.build-log.*' "${SIMSRC:-/verif/sim}/" "$ROOT/sim/"
 cp /verif/known_findings.json "$ROOT/root/" 2>/dev/null
 mkdir -p "$ROOT/sim/target"
 python3 /verif/tools/rewrite_src.py "$ROOT/wt/src" "$ROOT/sim/target/repo-src" >/dev/null || exit 2
